@@ -5,10 +5,12 @@ CONSTANTS
   States = {"P"}
   Needs = {1, 2}
   MaxHold = 0
+  EnableOut = FALSE
   EnableCons = TRUE
   UseMin = FALSE
   FlagProducerOnEdgeLoss = TRUE
 INVARIANT CacheExactSafe
 INVARIANT CacheExactAfter
+INVARIANT CacheExactReady
 INVARIANT TreeWellFormed
 CHECK_DEADLOCK FALSE
